@@ -111,6 +111,17 @@ func (h *chunkHeartbeat) Marshal() ([]byte, error) {
 	return h.chunkHeader.marshal()
 }
 
+// marshal implements the chunk interface. Without it the interface call resolves to the
+// promoted chunkHeader.marshal, which encodes an empty HEARTBEAT without the Heartbeat Info.
+func (h *chunkHeartbeat) marshal() ([]byte, error) {
+	if len(h.params) == 0 {
+		// nothing to encode besides the header (as before)
+		return h.chunkHeader.marshal()
+	}
+
+	return h.Marshal()
+}
+
 func (h *chunkHeartbeat) check() (abort bool, err error) {
 	return false, nil
 }
